@@ -114,6 +114,13 @@ def make_scenario(rng, seed):
             args += ["--exit", str(rng.choice((1, 2, 3, 42)))]
         if rng.random() < 0.2:
             st["restat"] = True
+        if not fail and not console and rng.random() < 0.1:
+            # the command itself succeeds, but what it leaves as its depfile cannot be read (deps = gcc): ninja fails the statement
+            # when it extracts the dependencies - what the command printed is still shown, under the FAILED header
+            st["deps"], st["depfile"] = "gcc", "o%d.o.d" % i
+            st["shell_suffix"] = " && echo no-colon-in-here > $depfile"
+            fail = True
+            st["bad_depfile"] = True
         if console:
             st["pool"] = "console"
             # a console command writes to ninja's own stdout/stderr: only its stdout chunks show up in stdout
@@ -315,7 +322,7 @@ def e2e_case(ctx, seed):
                 return
             pos = so.find(text)
             before = so[:pos]
-            cl = cmdline.get(o, "").replace("$$", "$").replace("$in", " ".join(next(s for s in sc["stmts"] if s["outs"][0] == o)["ins"])).replace("$out", " ".join(next(s for s in sc["stmts"] if s["outs"][0] == o)["outs"]))
+            cl = cmdline.get(o, "").replace("$$", "$").replace("$in", " ".join(next(s for s in sc["stmts"] if s["outs"][0] == o)["ins"])).replace("$out", " ".join(next(s for s in sc["stmts"] if s["outs"][0] == o)["outs"])).replace("$depfile", next(s for s in sc["stmts"] if s["outs"][0] == o)["depfile"])
             # the status line (or, for a failure, the FAILED header + full command line) directly precedes the block
             tail = before[-(len(cl) + 400):]
             # what the status line of a successful command shows: the description if the rule has one, else the command line;
@@ -353,7 +360,7 @@ def e2e_case(ctx, seed):
             last_f = -1
             nlines = 0
             restarted = False
-            follows_status = rb"(?:" + rb"|".join([re.escape(t.vtool.encode())] + sorted({re.escape(ex_["desc"].encode()) for ex_ in expect.values() if ex_.get("desc")})) + rb")"
+            follows_status = rb"(?:" + rb"|".join([rb"(?:exec )?" + re.escape(t.vtool.encode())] + sorted({re.escape(ex_["desc"].encode()) for ex_ in expect.values() if ex_.get("desc")})) + rb")"
             for mm in re.finditer(rx + follows_status, so):
                 v = dict(zip(names, mm.groups()))
                 nlines += 1
@@ -388,7 +395,7 @@ def e2e_case(ctx, seed):
                 ctx.violation("C20/formatted-status-line-missing", "%s: %d commands ran but no status line matches the format" % (what, nfin), rep)
                 return
         if fmt is None and mode == "pipe":
-            follows_status = rb"(?:" + rb"|".join([re.escape(t.vtool.encode())] + sorted({re.escape(ex_["desc"].encode()) for ex_ in expect.values() if ex_.get("desc")})) + rb")"
+            follows_status = rb"(?:" + rb"|".join([rb"(?:exec )?" + re.escape(t.vtool.encode())] + sorted({re.escape(ex_["desc"].encode()) for ex_ in expect.values() if ex_.get("desc")})) + rb")"
             pairs = [(int(a), int(b)) for a, b in re.findall(rb"\[(\d+)/(\d+)\] " + follows_status, so)]
             ctx.count("status_lines_seen", len(pairs))
             for f, tt in pairs:
